@@ -1549,6 +1549,21 @@ fn main() {
         }
     }
 
+    // payloads beyond every buffer size of the readers (read_all_to grows its
+    // buffer in steps; the data of a command substitution must arrive complete
+    // whatever its length): sizes around 64 KiB and 128 KiB
+    {
+        let sizes: Vec<usize> =
+            if args.thorough() { vec![65535, 65536, 65537, 70000, 131072, 131073, 200001] } else { vec![65537] };
+        for (i, n) in sizes.iter().enumerate() {
+            let e = DExp::Gen(*n, 23 + i as u64, i % 2, 0);
+            stream_c_case(&mut w, &e, &Route::Var, 0, 1000 + i as u64);
+            if i == 1 && args.thorough() {
+                stream_c_case(&mut w, &e, &Route::Pipe(1, 1024), 0, 2000);
+            }
+        }
+    }
+
     // pipelines of 2-6 commands under every initial descriptor layout
     {
         let sizes: Vec<usize> = if args.thorough() { vec![3, PIPE_BUF + 1, PIPE_SIZE + 1, 2 * PIPE_SIZE + 3] } else { vec![PIPE_SIZE + 1] };
